@@ -1376,7 +1376,8 @@ def gen_set16(rng):
         aliasof = gen_docs.render_path(src_segs, sep)
         if oper == "aliasof-new" or rng.random() < 0.3:
             newanchor = rng.choice(["newanc", "N1", "&newanc", "new anc",
-                                    "*N1 ", "& N1"])
+                                    "*N1 ", "& N1", "new,anc", "N[1]",
+                                    "{N1}"])
     elif oper in ("tag", "tag-only"):
         segs, _n = rng.choice(scalars)
         path = fresh or gen_docs.render_path(segs, sep)
@@ -1491,6 +1492,9 @@ def expect_set(scn):
     proc = EYAMLProcessor(QuietLog(), data)
     path = YAMLPath(scn["path"])
     oper = scn["oper"]
+    if any(ch in ",[]{}" for ch in clean_anchor(scn.get("newanchor")) or ""):
+        # not a name YAML can express: to be refused with the arguments
+        return {"exit": 1}
     must = scn["must"] or bool(scn["saveto"]) or oper == "delete"
     try:
         try:
